@@ -479,7 +479,13 @@ def _open_probe(eng, st, o, k):
     materialise that possibility as a new item so that later accesses of the same key are consistent"""
     if not o.meta.get("open"):
         return
+    if o.meta.get("no_none_keys"):
+        isn = P.is_none(k)
+        if z3.is_true(isn):
+            return
     nomatch = znot(zor(*[P.eq(st, key, k) for key, _, _ in o.items]))
+    if o.meta.get("no_none_keys"):
+        nomatch = zand(nomatch, znot(P.is_none(k)))
     if z3.is_false(nomatch):
         return
     pres = z3.Bool(P.fresh_name("absdict.has"))
